@@ -62,6 +62,15 @@ type c16Scenario struct {
 	Files   bool       `json:"files"`       // true: temp files under $VERIF_WORK read by batchers.OpenFilesToChan
 	Workers int        `json:"workers"`     // every view is run with Workers: 1 and with this many (2..4)
 	Reps    int        `json:"repetitions"`
+
+	// kind = sequence | concurrent (seq.go): ONE compiled expression per view over many different matches
+	Kind    string       `json:"kind,omitempty"`
+	Lines   []c16SeqLine `json:"lines,omitempty"`    // the distinct lines with their indices (one shared name table)
+	Seq     []int        `json:"sequence,omitempty"` // sequence: the order in which the lines are fed (Workers: 1)
+	Total   int          `json:"total,omitempty"`    // concurrent: number of lines fed, drawn with seq_seed
+	SeqSeed uint64       `json:"seq_seed,omitempty"`
+	Queries []string     `json:"queries,omitempty"` // {json <view> <member>} expressions evaluated besides the views
+	Extract int          `json:"extract_view"`      // which view is the extractor's own expression (0 {.} 1 {#} 2 {.#})
 }
 type c16KV struct {
 	Key string `json:"key_hex"`
@@ -104,6 +113,9 @@ func factoryOf(in c16In) (matchers.Factory, error) {
 			return nil, err
 		}
 		return matchers.ToFactory(d), nil
+	}
+	if (in.Via == "sequence" || in.Via == "concurrent") && in.Scenario != nil {
+		return seqFactory(in), nil
 	}
 	names := map[string]int{}
 	for _, n := range in.Names {
@@ -206,15 +218,60 @@ func scenarioBatches(sc *c16Scenario, dir string, concurrency int) (<-chan extra
 
 // runs the scenario for the three views with Workers 1 and sc.Workers; result: per view, line -> distinct texts
 func runScenario(in c16In) ([3]map[string][]string, string) {
-	sc := in.Scenario
 	kb, _ := json.Marshal(struct {
 		P string
 		S *c16Scenario
-	}{in.Pattern, sc})
+	}{in.Pattern, in.Scenario})
 	key := string(kb)
 	if r, ok := scenarioCache[key]; ok {
 		return r, scenarioNotes[key]
 	}
+	// in a child process (see seq.go runSeqScenario): a worker goroutine that crashes must not take the harness down
+	var res [3]map[string][]string
+	note := ""
+	var w seqWire
+	if out, err := runChild("pipechild", c16In{Pattern: in.Pattern, Scenario: in.Scenario, Via: "pipeline"}); err != "" {
+		note = err
+	} else if e := json.Unmarshal(out, &w); e != nil {
+		note = "unreadable result of the evaluation process: " + e.Error()
+	} else {
+		note = w.Note
+		for vi := range w.Texts {
+			res[vi] = map[string][]string{}
+			for l, ts := range w.Texts[vi] {
+				for _, t := range ts {
+					res[vi][unhexs(l)] = append(res[vi][unhexs(l)], unhexs(t))
+				}
+			}
+		}
+	}
+	scenarioCache[key] = res
+	scenarioNotes[key] = note
+	return res, note
+}
+
+func pipeChildMain() {
+	var in c16In
+	if err := json.NewDecoder(os.Stdin).Decode(&in); err != nil || in.Scenario == nil {
+		fmt.Fprintln(os.Stderr, "pipechild: bad input", err)
+		os.Exit(2)
+	}
+	res, note := runScenarioHere(in)
+	w := seqWire{Note: note}
+	for vi := range res {
+		w.Texts[vi] = map[string][]string{}
+		for l, ts := range res[vi] {
+			for _, t := range ts {
+				k := hex.EncodeToString([]byte(l))
+				w.Texts[vi][k] = append(w.Texts[vi][k], hex.EncodeToString([]byte(t)))
+			}
+		}
+	}
+	json.NewEncoder(os.Stdout).Encode(w)
+}
+
+func runScenarioHere(in c16In) ([3]map[string][]string, string) {
+	sc := in.Scenario
 	var res [3]map[string][]string
 	var notes []string
 	dir := ""
@@ -279,9 +336,7 @@ func runScenario(in c16In) ([3]map[string][]string, string) {
 			sort.Strings(res[vi][l])
 		}
 	}
-	scenarioCache[key] = res
-	scenarioNotes[key] = strings.Join(notes, "; ")
-	return res, scenarioNotes[key]
+	return res, strings.Join(notes, "; ")
 }
 
 // ---- `rare expression -r -n -d ... -k k=v '{.}'` run in-process (cmd.GetSupportedCommands), stdout captured
@@ -519,11 +574,23 @@ func c16Run(in c16In) (out c16Out) {
 			notes = append(notes, note)
 		}
 	}
+	isSeq := (in.Via == "sequence" || in.Via == "concurrent") && in.Scenario != nil
+	var seqT [3][]string
+	seqOK := true
+	if isSeq {
+		var note string
+		seqT, seqOK, note = seqTexts(in)
+		if note != "" {
+			notes = append(notes, note)
+		}
+	}
 	for vi, v := range views {
 		var texts []string
 		var note string
 		if in.Via == "cli" {
 			texts = cliTexts[vi]
+		} else if isSeq {
+			texts = seqT[vi]
 		} else if in.Via == "pipeline" {
 			if pipeTexts[vi] != nil {
 				texts = pipeTexts[vi][unhexs(in.Line)]
@@ -543,7 +610,8 @@ func c16Run(in c16In) (out c16Out) {
 		if *v.dst == nil {
 			*v.dst = []string{}
 		}
-		out.Oracle[vi] = ok
+		// sequence / concurrent: also the {json ...} queries and the comparison with a fresh compile
+		out.Oracle[vi] = ok && seqOK
 	}
 	out.Note = strings.Join(notes, "; ")
 	return
@@ -586,6 +654,9 @@ func needsKeyEscape(s string) bool {
 }
 
 func c16Case(in c16In) Case {
+	if in.Names == nil {
+		in.Names = []c16Name{}
+	}
 	sort.Slice(in.Names, func(a, b int) bool { return in.Names[a].Name < in.Names[b].Name })
 	sort.Slice(in.Keys, func(a, b int) bool { return in.Keys[a].Key < in.Keys[b].Key })
 	out := c16Run(in)
@@ -678,6 +749,17 @@ func classify(in c16In) ([]string, bool) {
 	if in.Via == "cli" {
 		tagset[fmt.Sprintf("cli:keys=%d", len(in.Keys))] = true
 	}
+	if (in.Via == "sequence" || in.Via == "concurrent") && in.Scenario != nil {
+		sc := in.Scenario
+		if in.Via == "sequence" {
+			tagset["stateful:sequence(one compiled expression, many matches)"] = true
+		} else {
+			tagset[fmt.Sprintf("stateful:concurrent(workers=%d)", sc.Workers)] = true
+		}
+		if len(in.Line) == 0 {
+			tagset["stateful:all-empty-context"] = true
+		}
+	}
 	if in.Via == "pipeline" && in.Scenario != nil {
 		sc := in.Scenario
 		tagset[fmt.Sprintf("pipeline:sources=%d", len(sc.Sources))] = true
@@ -731,7 +813,7 @@ func classify(in c16In) ([]string, bool) {
 	for t := range tagset {
 		tags = append(tags, t)
 		if strings.HasPrefix(t, "text:") || strings.HasPrefix(t, "name:") || strings.HasPrefix(t, "group:") || t == "kf:C16-member-order" ||
-			t == "pipeline:same-line-number-back-to-back" || t == "pipeline:line-in-several-places" {
+			t == "pipeline:same-line-number-back-to-back" || t == "pipeline:line-in-several-places" || strings.HasPrefix(t, "stateful:") {
 			nontrivial = true
 		}
 	}
@@ -1225,7 +1307,23 @@ func c16Gen(r *Rng, n int, tier string) []Case {
 			}
 		}
 	}
-	cleanMode = false
+	// one compiled expression over many matches: sequences (Workers: 1) and concurrent workers
+	nseq, nconc := 8, 3
+	if tier == "thorough" {
+		nseq, nconc = 60, 12
+	}
+	for i := 0; i < nseq+nconc; i++ {
+		cleanMode = i%4 != 3
+		noCtrl = cleanMode
+		kind := "sequence"
+		if i >= nseq {
+			kind = "concurrent"
+		}
+		for _, in := range genSeqScenario(r, kind) {
+			cases = append(cases, c16Case(in))
+		}
+	}
+	cleanMode, noCtrl = false, false
 	base := len(cases)
 	for len(cases) < base+n {
 		var in c16In
@@ -1263,11 +1361,20 @@ func c16Gen(r *Rng, n int, tier string) []Case {
 var _ = bytes.Equal
 
 func main() {
+	if len(os.Args) >= 2 && os.Args[1] == "seqchild" {
+		seqChildMain()
+		return
+	}
+	if len(os.Args) >= 2 && os.Args[1] == "pipechild" {
+		pipeChildMain()
+		return
+	}
 	Main(&Prop{
 		Name:   "C16",
 		Header: "From Coq Require Import List NArith ZArith String.\nFrom RareV Require Import Corr.C16Case.\nImport ListNotations.\nOpen Scope Z_scope. Open Scope string_scope.\n",
 		Rule: "fixed part: every byte value 0..255 alone in a named group and embedded in a numbered group; every numeric shape (007, 1., .5, -1, 1e5, 00.1, -0, +1, ...) and boolean shape (case variants, U+017F long s, look-alikes) alone under 0/1/2 names; 0..4 names over the same groups. " +
 			"pipeline part (8 fixed-shape scenarios, then about 1/6 of the seeded cases): 2..4 sources whose line numbers all start at 1 (one line each / one-line batches interleaved round robin / only first lines match / free; lines repeated across sources) are pushed through ONE extractor.New with a real regexp matcher and a JSON view as the expression, with Workers 1 and 2..4, twice each, either as scripted InputBatches in a generated interleaving or as temp files under $VERIF_WORK read by batchers.OpenFilesToChan; every emitted match is grouped by its line and each distinct matching line is one case: all texts ever rendered for that line (whatever was rendered before it) must be the one text of its own captures. " +
+			"stateful part (8 sequence + 3 concurrent scenarios in quick, 60 + 12 in thorough; one case per distinct line): {.}, {#}, {.#} and {json <view> <member>} queries are each compiled ONCE, optimised and unoptimised, and evaluated (inside an extractor.IgnoreSet probe, i.e. on the workers' real expression contexts, besides the extractor's own shared key builder) over 5..9 different matches of one scripted matcher — an all-empty probe-like context first, different group counts, unmatched groups, lines sharing the text of group 0, texts needing escapes followed by plain ones, adjacent repeats — either as one sequence with Workers 1 (every evaluation also compared with a fresh compile) or from 4..8 workers at once behind a start barrier, 2500 evaluations of every expression per worker (every 16th compared with a fresh compile); all texts ever produced for a line must be the one text of that line alone, and every query must give the member's text. " +
 			"seeded part: 1/6 `rare expression -r -n -d ... -k k=v` run in-process through cmd.GetSupportedCommands (0..4 data, 0..4 keys, the -k order rotated between evaluations; no NUL, no comma, no '=' in keys, valid UTF-8 only, no surrounding white space: what the flag library passes on unchanged); of the rest 60% scripted matcher (0..5 groups with nested/overlapping/empty/unmatched spans, 0..4 names incl. digits-only, duplicate group, out-of-range index, names needing escapes), 20% real regexp ((?P<name>...) fields separated by 0x1e, optional groups), 20% real dissect (arbitrary token names). " +
 			"group texts: numeric shapes, boolean shapes, log-like words, raw random bytes, digit noise, words mixed with quotes/backslashes/control characters/non-ASCII/invalid UTF-8. " +
 			"every view ({.}, {#}, {.#}) of every case is evaluated 50 times through extractor.New on one batch; the observable is the set of distinct texts per view plus encoding/json's verdict. " +
